@@ -4,3 +4,4 @@ import SuppModel.Props.C06
 #print axioms SuppModel.Props.C06.C06_complete
 #print axioms SuppModel.Props.C06.C06_complete_class
 #print axioms SuppModel.Props.C06.C06_fuel_independent
+#print axioms SuppModel.Props.C06.C06_total
